@@ -397,17 +397,19 @@ Definition get_type (sc : schema) (n : str) : option stypedef := option_map nval
 Definition get_directive (sc : schema) (n : str) : option sdirective := option_map nval (lookup n (sc_dirs sc)).
 
 (** the root operation type an operation of kind [op] is checked against (checker/operation_checker
-    check_operation): with an explicit schema definition (root node not built-in) only a declared root counts,
-    otherwise the declared one or the default name; [None] when the operation kind is not available *)
+    check_operation): the roots are *explicit* when the root node's position is not built-in (schema definition) or a
+    query root is stated (introspection result); then only a declared root counts; otherwise the declared one or the
+    default name; [None] when the operation kind is not available *)
 Definition default_root_name (op : optype) : str :=
   match op with Query => s "Query" | Mutation => s "Mutation" | Subscription => s "Subscription" end.
 Definition declared_root (r : sroots) (op : optype) : option (node str) :=
   match op with Query => r_query r | Mutation => r_mutation r | Subscription => r_subscription r end.
+Definition roots_explicit (sc : schema) : bool :=
+  negb (pbuiltin (npos (sc_roots sc))) || match r_query (nval (sc_roots sc)) with Some _ => true | None => false end.
 Definition root_name (sc : schema) (op : optype) : option str :=
-  let explicit := negb (pbuiltin (npos (sc_roots sc))) in
   match declared_root (nval (sc_roots sc)) op with
   | Some n => Some (nval n)
-  | None => if explicit then None else Some (default_root_name op)
+  | None => if roots_explicit sc then None else Some (default_root_name op)
   end.
 Definition root_type (sc : schema) (op : optype) : option str :=
   match root_name sc op with
@@ -449,13 +451,6 @@ Definition names_ok (M : smodel) : bool :=
   nodup_str (map mt_name (m_types M))
   && forallb (fun t => negb (is_builtin_scalar (mt_name t)) && negb (is_meta_name (mt_name t))) (m_types M)
   && nodup_str (map md_name (m_dirs M) ++ map md_name builtin_dirs).
-(** with a schema definition, an operation kind that is not declared must not be shadowed by a type carrying
-    its default name (on the JSON route the root node is built-in, so the default name is looked up) *)
-Definition no_shadow_root (M : smodel) : bool :=
-  let has n := mem_str n (map mt_name (m_types M)) in
-  negb (m_explicit M) ||
-  ((match m_mutation M with None => negb (has (s "Mutation")) | Some _ => true end)
-   && (match m_subscription M with None => negb (has (s "Subscription")) | Some _ => true end)).
 (** without a schema definition the roots are the types with the default names (spec §3.3.1) *)
 Definition implicit_roots_ok (M : smodel) : bool :=
   let has n := mem_str n (map mt_name (m_types M)) in
@@ -476,7 +471,7 @@ Definition desc_ok (M : smodel) : bool :=
 (** user directives do not redefine one another or a built-in directive *)
 Definition dirs_ok (M : smodel) : bool := nodup_str (map md_name (m_dirs M) ++ map md_name builtin_dirs).
 Definition model_ok (M : smodel) : bool :=
-  dirs_ok M && no_shadow_root M && implicit_roots_ok M && roots_ok M && desc_ok M.
+  dirs_ok M && implicit_roots_ok M && roots_ok M && desc_ok M.
 (** schema definitions of a parsed document carry a real (non built-in) position *)
 Definition parsed_positions (D : tsdoc) : Prop := Forall (fun sd => pbuiltin (sd_pos sd) = false) (schema_defs D).
 Definition parsed_positions_b (D : tsdoc) : bool := forallb (fun sd => negb (pbuiltin (sd_pos sd))) (schema_defs D).
